@@ -2,7 +2,7 @@ add("C18", "exploration",
     "Generated JSON dictionaries (recursive values, real payload shape, size-stratified texts) are round-tripped through "
     "encode_data/decode_data and an independent decoder; exploration is the right level because the domain is unbounded "
     "and the oracle (identity) is exact.",
-    "Trusts Python's json/zlib/base64; string keys, finite floats, no lone surrogates.",
+    "Trusts Python's json/zlib/base64; string keys, finite floats; lone surrogates are generated but never a high one directly followed by a low one (JSON itself merges that pair).",
     "property-based testing (Hypothesis): round-trip + independent decoder",
     "DESIGN.md section 18")
 add("C01", "exploration",
@@ -23,15 +23,18 @@ add("C07", "exploration",
     "DESIGN.md section 7")
 add("C02", "exploration",
     "Metamorphic/differential: the IC10 emitted under drawn (thorough: all 256) option vectors is executed on the "
-    "reference machine and must produce the default vector's effect trace; a pragma arm requires textual identity "
-    "between '# pytrapic:' and API-given options.",
-    "Reference machine semantics are mine; rejected vectors are skipped; tail-call bit restricted by the F-D11 carve-out.",
+    "reference machine and must produce the default vector's effect trace; no vector may be rejected for another reason "
+    "than register exhaustion when the default vector compiles; 1 in 6 programs is split over library modules; a pragma "
+    "arm requires textual identity between '# pytrapic:' and API-given options.",
+    "Reference machine semantics are mine; vectors rejected for register exhaustion are skipped; tail-call bit restricted by the F-D11 carve-out.",
     "property-based metamorphic testing (Hypothesis): option vector vs default vector on the IC10 reference machine",
     "DESIGN.md section 2")
 add("C04", "exploration",
     "Dynamic provenance check: using the virtual register names exported by the guarded hook, every register read "
     "executed on the reference machine must see the value last written for the same virtual register; generated "
-    "lifetime shapes incl. >16 live locals (must be rejected with the out-of-registers error) and captured device ids.",
+    "lifetime shapes incl. >16 live locals (must be rejected with the out-of-registers error), captured device ids, "
+    "programs split over library modules, and directly recursive functions (rejected today; if accepted they are judged "
+    "by the reference interpreter because activations share virtual names).",
     "Needs the PYTRAPIC_VERIF hook; aliasing by design (same virtual name) is not judged here.",
     "property-based testing (Hypothesis) with a provenance-tag invariant on the reference machine",
     "DESIGN.md section 4")
@@ -52,7 +55,9 @@ add("C09", "exploration",
 add("C05", "exploration",
     "Generated call-heavy programs with adversarial function/module identifiers: structural label check, an "
     "independent label resolver applied to the labelled output must reproduce the remove_labels output line for line, "
-    "and both outputs must behave alike on the reference machine with every return landing behind its call.",
+    "both outputs must behave alike on the reference machine with every return landing behind its call, the labelled "
+    "output compiled with the comment options must pass the structural check and behave alike, and the identifier "
+    "programs must produce the reference interpreter's effect trace.",
     "Identifier sets are repaired to avoid the open label-collision findings; comments off for the textual comparison.",
     "property-based metamorphic testing (Hypothesis): independent label resolver + differential execution",
     "DESIGN.md section 5")
@@ -79,16 +84,19 @@ add("C08", "exploration",
     "DESIGN.md section 8")
 add("C03", "exploration",
     "Metamorphic pair per expression: the folded program (literal operands) and its un-folded twin (the same operands "
-    "loaded from the stack) are both compiled and run on the reference machine; written values must agree. Operator "
-    "grid enumerated, expression trees generated.",
+    "loaded from the stack) are both compiled and run on the reference machine; written values must agree, and the "
+    "folder must not reject an expression whose run-time form computes finite values. Operator grid enumerated (incl. "
+    "comparisons of neighbouring literals), expression trees generated.",
     "Operands restricted to the range where IC10 semantics are unambiguous; reference ALU is mine; 1e-15 relative "
     "tolerance for non-integers (16 significant digits are printed).",
     "property-based metamorphic testing (Hypothesis + enumerated operator grid): folded vs un-folded twin on the IC10 reference machine",
     "DESIGN.md section 3")
 add("C13", "exploration",
     "Generated programs split over main + 1-3 library modules (aliases, colliding names, __main__ blocks, never-called "
-    "functions) are rendered as modules and as one merged file; both are compiled, run on the reference machine and "
-    "compared, plus comparison with the source interpreter and metamorphic deletion of __main__ blocks / unused functions.",
+    "functions, module-level effect statements, early returns, configuration-only libraries, library calls inside "
+    "main-file functions) are rendered as modules and as one merged file; both are compiled, run on the reference machine and "
+    "compared (a program accepted in one rendering must be accepted in the other), plus comparison with the source "
+    "interpreter and metamorphic deletion of __main__ blocks / unused functions.",
     "Generated label numbers are canonicalised before textual comparison; imports at the top of the main file.",
     "property-based metamorphic + differential testing (Hypothesis): modular vs merged rendering",
     "DESIGN.md section 13")
@@ -102,7 +110,8 @@ add("C15", "exploration",
 add("C12", "exploration",
     "Generated @constexpr functions, argument expressions and call positions; the function text is executed directly by "
     "the checker and every call site's written value on the reference machine must equal it; metamorphic literal twin "
-    "for 'emits no code'; forbidden-word bodies must be rejected.",
+    "for 'emits no code'; main file and library may define constexpr functions of the same names; a twin program that "
+    "differs only in a helper's body is compiled next in the same process; forbidden-word bodies must be rejected.",
     "Child interpreter has a 1 s limit (spurious timeouts retried, else inconclusive); results are numbers/booleans.",
     "property-based testing (Hypothesis): direct Python evaluation as reference model + metamorphic literal twin",
     "DESIGN.md section 12")
@@ -118,9 +127,11 @@ add("C11", "exploration",
     "Hypothesis rule-based state machine over one long-lived process: after every compilation the result must equal "
     "the fresh-process reference for the same (sources, option values) and every earlier result for it, and the "
     "options object / source mapping must be unchanged; requests include directive-bearing sources with shared option "
-    "objects, colliding constexpr call texts and erroring sources.",
-    "Fresh references come from forked copies of a template process whose only history is one trivial compilation, "
-    "cross-checked against brand-new interpreters; stack traces and memory addresses are masked.",
+    "objects, colliding constexpr call texts, constexpr results that are lists, multi-module programs (with a library "
+    "the main file does not import) and erroring sources.",
+    "Fresh references come from forked copies of two template processes (two different string-hash seeds, which must "
+    "agree) whose only history is one trivial compilation, cross-checked against brand-new interpreters; stack traces "
+    "and memory addresses are masked.",
     "stateful / model-based property testing (Hypothesis RuleBasedStateMachine) with a fresh-process reference oracle",
     "DESIGN.md section 11")
 add("C14", "exploration",
